@@ -75,6 +75,22 @@ def traversal_rules(ctx, w, rule):
         if [s + ".Some.0" for s in somes] != visited:
             bad.append((somes, visited))
     ctx.check(bool(paths) and not bad, rule, f"{rule}:every-child", w.where(fc), bad_msg=f"children yielded vs cleaned: {bad[:1]}")
+    # a child of an ignored (unwrapped) element is moved up BEFORE it is cleaned: cleaning may detach or replace the child, and a handle that was
+    # cleaned first re-attaches the discarded node (with its attributes) - which a second pass then removes
+    late = []
+    for p in paths:
+        if not any(a[0] == "variant" and t and "node_action(" in D.show(a[1]) and a[2] == "Ignore" for a, t in p.conds) and \
+                not any(a[0] == "eq" and t and "node_action(" in D.show_atom(a) and "Ignore" in D.show_atom(a) for a, t in p.conds):
+            continue
+        for idx, e in enumerate(p.effects):
+            if e[0].endswith("clean_node"):
+                child = U.shows(e[1])[1]
+                moved_before = any(x[0].endswith("insert_before_sibling") and U.shows(x[1])[0] == child for x in p.effects[:idx])
+                if not moved_before:
+                    late.append(child[-50:])
+    ctx.check(not late, rule, f"{rule}:moved-before-cleaned", w.where(fc),
+              bad_msg=f"a child of an ignored element is passed to clean_node before it is moved before the element ({late[:1]}): if cleaning detaches or replaces the child, "
+                      f"the stale handle re-attaches the discarded node, and sanitizing twice differs from sanitizing once")
     body = fc["body"]
     cfg = M.Cfg(body)
     loops = cfg.natural_loops()
